@@ -1690,7 +1690,17 @@ fn build_f<R: Round, O: Round, const B: Word>(op: &FOp, tr: &mut Tr, out: &mut O
         FR::Padded => FBig::from_repr(Repr::new(n2i(&padded(op.pad)), e - op.pad as isize), ctx),
         FR::FromParts => FBig::from_parts(n2i(&padded(op.pad)), e - op.pad as isize),
         FR::PartsConst => match padded(op.pad).magnitude().to_u128() {
-            Some(m) => FBig::from_parts_const(sign_of(op.v.sig.neg), m, e - op.pad as isize, if alt & 1 == 0 { None } else { Some(p) }),
+            Some(m) => {
+                // the minimum precision may be absent, the precision of the case, or smaller than the
+                // number of digits given (documented: the higher of the given and the inferred one is used)
+                let minp = match alt % 4 {
+                    0 => None,
+                    1 => Some(p),
+                    2 => Some(1),
+                    _ => Some(d.saturating_sub(1).max(1)),
+                };
+                FBig::from_parts_const(sign_of(op.v.sig.neg), m, e - op.pad as isize, minp)
+            }
             None => {
                 out.label("route:fallback from_repr");
                 plain()
